@@ -158,12 +158,13 @@ var plans = map[string]Plan{
 	},
 	"C20": {
 		Level: "exploration",
-		Rule: "cases are (base multi-file Thrift program, edit script) committed as HEAD~ and HEAD of a scratch git repository: 1-5 files in nested directories with includes along a DAG; 0-7 edits drawn from 5 breaking kinds (remove service, remove method, add required field to an existing struct, optional->required on fields without a default and on fields whose old version carried a default value (the default is dropped with the edit), change a field's declared type name) and 14 compatible kinds (add optional field / method / service / struct / enum / constant / typedef / file / include, reorder, required->optional, delete struct, delete file, remove include); 15+3 enumerated pairs. The real thriftbreak binary is run in readable and --json mode (and again on reordered renderings). " +
+		Rule: "cases are (base multi-file Thrift program, edit script) committed as HEAD~ and HEAD of a scratch git repository: 1-5 files in nested directories with includes along a DAG; 0-7 edits drawn from 5 breaking kinds (remove service, remove method, add required field to an existing struct, optional->required on fields without a default and on fields whose old version carried a default value (the default is dropped with the edit), change a field's declared type name) and 14 compatible kinds (add optional field / method / service / struct / enum / constant / typedef / file / include, reorder, required->optional, delete struct, delete file, remove include); 15+3 enumerated pairs (the 15 each under four file-mode variants). What git records about a file besides its contents varies too: in half of the random cases every path (Thrift files, the non-Thrift file) carries the executable bit (tree mode 100755) in both commits, in HEAD~ only, in HEAD only (a mode change with or without a change of contents) or in neither; a fifth of the repositories are packed (git gc) before the run. The real thriftbreak binary is run in readable and --json mode (and again on reordered renderings). " +
 			"Oracle: multiset of (file, kind, subject names) parsed from the output == the multiset known by construction from the edit script; exit status != 0 iff non-empty. " +
 			"Non-trivial: >=1 breaking edit or >=2 compatible edits. Distinct: SHA-256 of the JSON case (all file texts of both versions).",
 		Assumptions: []string{
 			"the five message phrases and %q-quoted names are the tool's interface; a file attribution is correct if it is the repo-relative path or the base name",
 			"ambiguous edits (a name moved between files, required field added with a default, renames) are not generated",
+			"a Thrift file is a regular git blob (mode 100644 or 100755); symbolic links (to files or directories) and submodules are not committed: internal/git reads blobs by their tree path and does not follow links, and the statement speaks of files",
 			"a field declared `required` together with a default value is compiled as not required by thriftrw; edits that end in (or start from) that shape are not generated because the statement does not say whether they count as 'required'",
 		},
 		Prebuild: []Prebuild{{Name: "thriftbreak", Pkg: "go.uber.org/thriftrw/cmd/thriftbreak"}},
@@ -209,18 +210,20 @@ var plans = map[string]Plan{
 	},
 	"C16": {
 		Level: "fault_enumeration",
-		Rule: "cases are script sets for 1-3 scripted fake plugins (own framing / envelopes via internal/refcodec) run by the real thriftrw binary: per protocol step (handshake, generate, goodbye) x fault kind (ok, wrong name, wrong API version, feature missing, missing field, exception envelope, wrong envelope type, garbage frame, raw garbage, truncation at every byte offset of the reply frame, oversized length prefix, exit before read / after read / after reply) x write mode (whole, bytewise, drawn segments with pauses) x advertised feature list of a conforming handshake ([SERVICE_GENERATOR], empty, only values the host does not know such as [2] / [0] / [7,9], those next to SERVICE_GENERATOR, repetitions) x exit status x linger. Complete grids: truncation (210), fault (162), pairs (2916, thorough); random scripts; the public plugin.Main driven over a segmented byte stream. " +
-			"Oracle (history checking): each plugin's event trace is accepted by the protocol automaton; generate only after a conforming handshake whose feature list contains SERVICE_GENERATOR; exactly one goodbye to every conforming plugin still reading; every started plugin saw EOF and exited before the host; host exit status != 0 iff some plugin failed, and then stderr names it. " +
+		Rule: "cases are script sets for 1-3 scripted fake plugins (own framing / envelopes via internal/refcodec) run by the real thriftrw binary: per protocol step (handshake, generate, goodbye) x fault kind (ok, wrong name, wrong API version, feature missing, missing field, exception envelope, wrong envelope type, garbage frame, raw garbage, truncation at every byte offset of the reply frame, oversized length prefix, exit before read / after read / after reply, a flood of junk instead of the reply) x flood modifier (a complete reply followed by 1 B .. 1 MiB of junk in one write - below and above the 64 KiB pipe buffer, four patterns - then exit) x write mode (whole, bytewise, drawn segments with pauses) x advertised feature list of a conforming handshake ([SERVICE_GENERATOR], empty, only values the host does not know such as [2] / [0] / [7,9], those next to SERVICE_GENERATOR, repetitions) x exit status x linger x the rest of the command line (plain; valid --output-file; generator flags; runs failing for reasons of their own: --output-file without .go, no / two / missing input files, unknown flag, input that does not compile, thrift root that is no ancestor, no package prefix, plugin not on the PATH, --version, --help, input that does not generate, unwritable --out; before or after the --plugin flags). Complete grids: truncation (210), fault (198), command line (270), pairs (4356, thorough); random scripts; the public plugin.Main driven over a segmented byte stream. " +
+			"Oracle (history checking): each plugin's event trace is accepted by the protocol automaton; generate only after a conforming handshake whose feature list contains SERVICE_GENERATOR; exactly one goodbye to every conforming plugin still reading; every started plugin saw EOF (or was released from a blocked write by the host closing its pipe) and exited before the host; the host terminates; host exit status != 0 iff some plugin failed, and then stderr names it (the exit status is not judged when the command line itself makes the run fail; the life-cycle clauses are). " +
 			"Non-trivial: >=1 deviation or >=2 plugins. Distinct: SHA-256 of the script set.",
 		Assumptions: []string{
 			"which fault kinds make a plugin 'failed' is fixed by harness/fplab.IsFailure (everything except ok, feature-missing, segmented writes, linger, exit-after-goodbye-reply)",
 			"a handshake advertising unknown feature values (alone or next to SERVICE_GENERATOR) is a conforming handshake, not a failure; only the 'only after' direction of the gate is asserted (whether generate is sent to an advertising plugin is C17's business)",
-			"one O_APPEND event log gives the global order of plugin events and the host-exit marker; 60 s ceiling (x2) for hangs",
+			"one O_APPEND event log gives the global order of plugin events and the host-exit marker; 60 s ceiling (x2) for hangs, cut short when from 10 s on every thread of the host's process group sleeps for 5 s without CPU time or new events (blocked for good)",
+			"junk on stdout where a reply is due (handshake, generate, instead of goodbye) makes the plugin a failed plugin; junk after a conforming goodbye reply is left open by the statement: either exit status is accepted, termination and reaping are still required",
 		},
 		Prebuild: []Prebuild{{Name: "thriftrw", Pkg: "go.uber.org/thriftrw"}, {Name: "fakeplugin", Pkg: "verif/harness/fakeplugin"}, {Name: "libplugin", Pkg: "verif/harness/libplugin"}},
 		Units: []Unit{
 			{Name: "truncation-grid", Pkg: "./checks/c16", Run: "^TestTruncationGrid$", Shards: [2]int{2, 2}},
 			{Name: "fault-grid", Pkg: "./checks/c16", Run: "^TestFaultGrid$", Shards: [2]int{2, 2}},
+			{Name: "cli-grid", Pkg: "./checks/c16", Run: "^TestCLIGrid$", Shards: [2]int{1, 1}},
 			{Name: "pair-grid", Pkg: "./checks/c16", Run: "^TestPairGrid$", Shards: [2]int{0, 8}},
 			{Name: "random", Pkg: "./checks/c16", Run: "^TestRandomScripts$", Rapid: true, Shards: [2]int{10, 16}, Checks: [2]int{40, 250}},
 			{Name: "lib", Pkg: "./checks/c16", Run: "^TestLibPlugin$", Rapid: true, Shards: [2]int{2, 4}, Checks: [2]int{150, 2000}},
@@ -228,11 +231,11 @@ var plans = map[string]Plan{
 	},
 	"C17": {
 		Level: "fault_enumeration",
-		Rule: "cases are sandboxes (Thrift sources in a layout, output dir fresh or pre-populated, 0-3 scripted plugins returning files) run through the real thriftrw binary with the whole sandbox snapshotted (path, mode, SHA-256) before and after. Complete grids: 11 plugin path shapes x {independent; equal to a core path with bytes of its own / exactly the core-generated bytes / those bytes with one byte changed; equal to another plugin's path with bytes of its own / identical bytes} x pre-population (132); k-th of n modules fails x 5 failure kinds (500); failing plugin i of n x 20 handshake/generate failure kinds (240); 11 thrift-root / out-dir layouts (396); plus random combinations. " +
-			"Oracle: nothing outside the output dir changes; exit != 0 => snapshot unchanged; same destination from two sources => error, whatever the two contents are; exit 0 => exactly the predicted files exist with the predicted contents. " +
+		Rule: "cases are sandboxes (Thrift sources in a layout, output dir fresh or pre-populated, 0-3 scripted plugins returning files - plugins of different names, or several instances of one plugin started with different arguments) run through the real thriftrw binary with the whole sandbox snapshotted (path, mode, SHA-256) before and after. Complete grids: 11 plugin path shapes x {independent; equal to a core path with bytes of its own / exactly the core-generated bytes / those bytes with one byte changed; equal to another plugin's path with bytes of its own / identical bytes; equal to the path of a second instance of the same plugin, likewise} x pre-population (176); k-th of n modules fails x 5 failure kinds (500); failing plugin i of n x 22 handshake/generate failure kinds (264); 18 thrift-root / out-dir layouts incl. sibling directories and files that differ in letter case only, below and beside the root (648); plus random combinations (a quarter with one or two path components of a drawn layout re-spelled in another case; a third of the later plugins being a further instance of an earlier one). " +
+			"Oracle: nothing outside the output dir changes; exit != 0 => snapshot unchanged; same destination from two sources (core / plugin process, whatever the plugins' names) => error, whatever the two contents are; exit 0 => exactly the predicted files exist with the predicted contents. " +
 			"Non-trivial: a plugin path that is not a plain relative path, or a case that must fail. Distinct: SHA-256 of the case JSON.",
 		Assumptions: []string{
-			"lexical cleaning is the meaning of 'the same path' (no symlinks in the sandbox); only handshake- and generate-phase plugin failures are injected (as the statement lists); write-phase I/O errors are outside the statement (see DESIGN.md)",
+			"lexical cleaning is the meaning of 'the same path' (no symlinks in the sandbox; the file system is case-sensitive, names differing in case are different paths); two processes of one plugin executable are two sources, one process returning two spellings of one destination is not exercised; only handshake- and generate-phase plugin failures are injected (as the statement lists); write-phase I/O errors are outside the statement (see DESIGN.md)",
 			"the bytes the core generator produces for a path are learnt from a preliminary run of the same command line without plugins in a sandbox at the same absolute path; if that run fails the plugin returns a fixed text instead (the case then must fail anyway)",
 		},
 		Prebuild: []Prebuild{{Name: "thriftrw", Pkg: "go.uber.org/thriftrw"}, {Name: "fakeplugin", Pkg: "verif/harness/fakeplugin"}},
